@@ -1,10 +1,1111 @@
-//! C07 — not built yet.
-use crate::{sx::Sx, Emitter};
+//! C07 — state resolution v2: cases and implementation outcomes (shared with C06).
+//!
+//! case (resolve) = ( N0 Nversion EVENTS SETS CHAINS )
+//!   EVENTS = ( EV* )            the event store, in creation order (an event after the events it cites)
+//!   EV     = ( Sid Stype (Sskey)? Ssender Nts ( Sauth* ) Scontent )
+//!   SETS   = ( ( ( Stype Sskey Sid )* )* )    one state map per fork, entries sorted by key
+//!   CHAINS = ( ( Sid* )* )                    full auth chain of each state map, sorted
+//! outcome = ( N0 RESULT ORACLE ) | ( N1 N0 ORACLE ) | ( N2 )
+//!   RESULT = ( ( Stype Sskey Sid )* )  sorted by key
+//!   ORACLE = ( EVO* )  one entry per event of EVENTS, same order: everything the state
+//!            resolution code obtains from *other* anchored code about one event, observed on the
+//!            real implementation (ruma_state_res::events helpers, auth_types_for_event, auth_check):
+//!     EVO  = ( MEM CRE PL ATY VER )
+//!     MEM  = ( ) | ( Smembership )          RoomMemberEvent::membership() if Ok (m.room.member only)
+//!     CRE  = ( ) | ( ( ) ) | ( ( Suser ) )  not a create event | creator(rules) Err | Ok
+//!     PL   = ( ) | ( USERS DEF )            not a power-levels event | ...
+//!       USERS = ( ) | ( ( ( Suser Nlevel )* ) )   users(rules) Err | Ok (absent = empty)
+//!       DEF   = ( ) | ( ( ) ) | ( ( N ) )         get_as_int(UsersDefault) Err | Ok(None) | Ok(Some)
+//!     ATY  = ( ) | ( ( ( Stype Sskey )* ) )  auth_types_for_event Err | Ok   (only for events that can
+//!                                            reach the iterative auth check; `( )` otherwise)
+//!     VER  = ( ( ( (Sid)? * ) Nverdict )* )  auth_check verdict for every combination of candidate
+//!            auth events at the ATY keys (candidates: nothing, the event's own auth event of that
+//!            key, the unconflicted entry, every event of the full conflicted set with that key);
+//!            the other keys of the auth map are the event's own auth events, as in
+//!            iterative_auth_check (lib.rs:460-495).
+//!
+//! case (exposed sort) = ( N1 GRAPH KEYS )   GRAPH = ( ( Sid ( Sid* ) )* )   KEYS = ( ( Sid Npl Nts )* )
+//! outcome = ( N0 ( Sid* ) ) | ( N1 N0 ) | ( N2 )
+use std::{
+    collections::{BTreeMap, BTreeSet, HashMap, HashSet},
+    sync::Arc,
+};
 
-pub fn run(_tier: &str, _seed: u64, _em: &mut Emitter) {}
+use js_int::{Int, UInt};
+use ruma_common::{
+    room_version_rules::AuthorizationRules, EventId, MilliSecondsSinceUnixEpoch, OwnedEventId, OwnedRoomId,
+    OwnedUserId, RoomId, UserId,
+};
+use ruma_events::{StateEventType, TimelineEventType};
+use ruma_state_res::{
+    auth_check, auth_types_for_event,
+    events::{RoomCreateEvent, RoomMemberEvent, RoomPowerLevelsEvent, RoomPowerLevelsIntField},
+    Event, StateMap,
+};
+use serde_json::value::RawValue as RawJsonValue;
 
-pub fn replay(_case: &Sx) -> Option<Sx> {
-    None
+use crate::{
+    rng::Rng,
+    sx::{guarded, Sx},
+    Emitter,
+};
+
+pub type Id = OwnedEventId;
+
+#[derive(Clone, Debug)]
+pub struct Ev {
+    pub id: Id,
+    pub room: OwnedRoomId,
+    pub sender: OwnedUserId,
+    pub ts: u64,
+    pub ty: TimelineEventType,
+    pub skey: Option<String>,
+    pub content: Box<RawJsonValue>,
+    pub prev: Vec<Id>,
+    pub auth: Vec<Id>,
+}
+
+impl Event for Ev {
+    type Id = Id;
+    fn event_id(&self) -> &Id {
+        &self.id
+    }
+    fn room_id(&self) -> &RoomId {
+        &self.room
+    }
+    fn sender(&self) -> &UserId {
+        &self.sender
+    }
+    fn origin_server_ts(&self) -> MilliSecondsSinceUnixEpoch {
+        MilliSecondsSinceUnixEpoch(UInt::new(self.ts).unwrap_or(UInt::MAX))
+    }
+    fn event_type(&self) -> &TimelineEventType {
+        &self.ty
+    }
+    fn content(&self) -> &RawJsonValue {
+        &self.content
+    }
+    fn state_key(&self) -> Option<&str> {
+        self.skey.as_deref()
+    }
+    fn prev_events(&self) -> Box<dyn DoubleEndedIterator<Item = &Id> + '_> {
+        Box::new(self.prev.iter())
+    }
+    fn auth_events(&self) -> Box<dyn DoubleEndedIterator<Item = &Id> + '_> {
+        Box::new(self.auth.iter())
+    }
+    fn redacts(&self) -> Option<&Id> {
+        None
+    }
+}
+
+pub type Store = HashMap<Id, Arc<Ev>>;
+pub type Key = (String, String);
+pub type SMap = BTreeMap<Key, Id>;
+
+pub const VERSIONS: &[u8] = &[6, 9, 10, 11];
+
+pub fn rules_of(v: u8) -> AuthorizationRules {
+    match v {
+        1 | 2 => AuthorizationRules::V1,
+        3..=5 => AuthorizationRules::V3,
+        6 => AuthorizationRules::V6,
+        7 => AuthorizationRules::V7,
+        8 | 9 => AuthorizationRules::V8,
+        10 => AuthorizationRules::V10,
+        _ => AuthorizationRules::V11,
+    }
+}
+
+pub fn eid(s: &str) -> Id {
+    <&EventId>::try_from(s).map(|e| e.to_owned()).unwrap_or_else(|_| panic!("bad event id {s}"))
+}
+pub fn uid(s: &str) -> OwnedUserId {
+    <&UserId>::try_from(s).unwrap().to_owned()
+}
+pub fn raw(s: &str) -> Box<RawJsonValue> {
+    RawJsonValue::from_string(s.to_owned()).unwrap()
+}
+
+#[derive(Clone)]
+pub struct ResolveCase {
+    pub version: u8,
+    pub events: Vec<Arc<Ev>>, // creation order
+    pub sets: Vec<SMap>,
+    pub chains: Vec<BTreeSet<Id>>,
+}
+
+impl ResolveCase {
+    pub fn store(&self) -> Store {
+        self.events.iter().map(|e| (e.id.clone(), e.clone())).collect()
+    }
+}
+
+// ---------------------------------------------------------------------------------------------
+// encoding
+// ---------------------------------------------------------------------------------------------
+fn key_sx(k: &Key) -> Vec<Sx> {
+    vec![Sx::s(&k.0), Sx::s(&k.1)]
+}
+
+pub fn smap_sx(m: &SMap) -> Sx {
+    Sx::L(m.iter().map(|(k, v)| Sx::L(vec![Sx::s(&k.0), Sx::s(&k.1), Sx::s(v.as_str())])).collect())
+}
+
+fn ev_sx(e: &Ev) -> Sx {
+    Sx::L(vec![
+        Sx::s(e.id.as_str()),
+        Sx::s(&e.ty.to_string()),
+        Sx::opt(e.skey.as_deref().map(Sx::s)),
+        Sx::s(e.sender.as_str()),
+        Sx::N(e.ts as i128),
+        Sx::L(e.auth.iter().map(|a| Sx::s(a.as_str())).collect()),
+        Sx::s(e.content.get()),
+    ])
+}
+
+pub fn case_sx(c: &ResolveCase) -> Sx {
+    Sx::L(vec![
+        Sx::N(0),
+        Sx::N(c.version as i128),
+        Sx::L(c.events.iter().map(|e| ev_sx(e)).collect()),
+        Sx::L(c.sets.iter().map(smap_sx).collect()),
+        Sx::L(c.chains.iter().map(|ch| Sx::L(ch.iter().map(|i| Sx::s(i.as_str())).collect())).collect()),
+    ])
+}
+
+fn decode_ev(x: &Sx) -> Option<Ev> {
+    let l = x.as_list()?;
+    if l.len() != 7 {
+        return None;
+    }
+    let id = <&EventId>::try_from(l[0].as_string()?.as_str()).ok()?.to_owned();
+    let ty = TimelineEventType::from(l[1].as_string()?);
+    let skey = match l[2].as_opt()? {
+        None => None,
+        Some(s) => Some(s.as_string()?),
+    };
+    let sender = <&UserId>::try_from(l[3].as_string()?.as_str()).ok()?.to_owned();
+    let ts = u64::try_from(l[4].as_int()?).ok()?;
+    let mut auth = vec![];
+    for a in l[5].as_list()? {
+        auth.push(<&EventId>::try_from(a.as_string()?.as_str()).ok()?.to_owned());
+    }
+    let content = RawJsonValue::from_string(l[6].as_string()?).ok()?;
+    Some(Ev { id, room: room(), sender, ts, ty, skey, content, prev: vec![], auth })
+}
+
+pub fn decode_case(x: &Sx) -> Option<ResolveCase> {
+    let l = x.as_list()?;
+    if l.len() != 5 || l[0].as_int()? != 0 {
+        return None;
+    }
+    let version = u8::try_from(l[1].as_int()?).ok()?;
+    let mut events = vec![];
+    for e in l[2].as_list()? {
+        events.push(Arc::new(decode_ev(e)?));
+    }
+    let mut sets = vec![];
+    for s in l[3].as_list()? {
+        let mut m = SMap::new();
+        for ent in s.as_list()? {
+            let t = ent.as_list()?;
+            if t.len() != 3 {
+                return None;
+            }
+            m.insert((t[0].as_string()?, t[1].as_string()?), <&EventId>::try_from(t[2].as_string()?.as_str()).ok()?.to_owned());
+        }
+        sets.push(m);
+    }
+    let mut chains = vec![];
+    for s in l[4].as_list()? {
+        let mut m = BTreeSet::new();
+        for i in s.as_list()? {
+            m.insert(<&EventId>::try_from(i.as_string()?.as_str()).ok()?.to_owned());
+        }
+        chains.push(m);
+    }
+    Some(ResolveCase { version, events, sets, chains })
+}
+
+fn room() -> OwnedRoomId {
+    <&RoomId>::try_from("!r:a").unwrap().to_owned()
+}
+
+// ---------------------------------------------------------------------------------------------
+// running the implementation
+// ---------------------------------------------------------------------------------------------
+pub fn to_state_map(m: &SMap) -> StateMap<Id> {
+    m.iter().map(|((t, k), v)| ((StateEventType::from(t.as_str()), k.clone()), v.clone())).collect()
+}
+
+pub fn from_state_map(m: &StateMap<Id>) -> SMap {
+    m.iter().map(|((t, k), v)| ((t.to_string(), k.clone()), v.clone())).collect()
+}
+
+/// One call of the real `resolve`; fresh HashMaps/HashSets (fresh RandomState seeds) every call.
+pub fn call_resolve(c: &ResolveCase, store: &Store, set_order: &[usize]) -> Result<SMap, ()> {
+    let rules = rules_of(c.version);
+    let sets: Vec<StateMap<Id>> = set_order.iter().map(|&i| to_state_map(&c.sets[i])).collect();
+    let chains: Vec<HashSet<Id>> = set_order.iter().map(|&i| c.chains[i].iter().cloned().collect()).collect();
+    match ruma_state_res::resolve(&rules, sets.iter(), chains, |id| store.get(id).cloned()) {
+        Ok(m) => Ok(from_state_map(&m)),
+        Err(_) => Err(()),
+    }
+}
+
+fn key_of(e: &Ev) -> Option<Key> {
+    e.skey.as_ref().map(|k| (e.ty.to_string(), k.clone()))
+}
+
+/// Events that can reach the iterative auth check, and per key the state candidates.
+fn candidates(c: &ResolveCase, store: &Store) -> (BTreeSet<Id>, BTreeMap<Key, BTreeSet<Id>>) {
+    let n = c.sets.len();
+    let mut per_key: BTreeMap<Key, BTreeMap<Id, usize>> = BTreeMap::new();
+    for s in &c.sets {
+        for (k, v) in s {
+            *per_key.entry(k.clone()).or_default().entry(v.clone()).or_default() += 1;
+        }
+    }
+    let mut full: BTreeSet<Id> = BTreeSet::new();
+    let mut cand: BTreeMap<Key, BTreeSet<Id>> = BTreeMap::new();
+    for (k, vs) in &per_key {
+        for (v, cnt) in vs {
+            if *cnt == n {
+                if store.contains_key(v) {
+                    cand.entry(k.clone()).or_default().insert(v.clone());
+                }
+            } else if store.contains_key(v) {
+                full.insert(v.clone());
+            }
+        }
+    }
+    let mut cnt: BTreeMap<Id, usize> = BTreeMap::new();
+    for ch in &c.chains {
+        for i in ch {
+            *cnt.entry(i.clone()).or_default() += 1;
+        }
+    }
+    for (i, k) in cnt {
+        if k < c.chains.len() && store.contains_key(&i) {
+            full.insert(i);
+        }
+    }
+    for i in &full {
+        if let Some(k) = key_of(&store[i]) {
+            cand.entry(k).or_default().insert(i.clone());
+        }
+    }
+    (full, cand)
+}
+
+const MAX_ROWS_PER_EVENT: usize = 1500;
+const MAX_ROWS_PER_CASE: usize = 12000;
+
+/// The oracle: per event, what state resolution learns about it from other anchored code.
+/// `None` when the verdict table would be too large (the case is then dropped by the caller).
+pub fn oracle(c: &ResolveCase, store: &Store) -> Option<Sx> {
+    let rules = rules_of(c.version);
+    let (full, cand) = candidates(c, store);
+    let mut total_rows = 0usize;
+    let mut out = vec![];
+    for e in &c.events {
+        let ev: &Ev = e;
+        let mem = if ev.ty == TimelineEventType::RoomMember {
+            match RoomMemberEvent::new(ev).membership() {
+                Ok(m) => Sx::L(vec![Sx::s(m.as_str())]),
+                Err(_) => Sx::L(vec![]),
+            }
+        } else {
+            Sx::L(vec![])
+        };
+        let cre = if ev.ty == TimelineEventType::RoomCreate {
+            match RoomCreateEvent::new(ev).creator(&rules) {
+                Ok(u) => Sx::L(vec![Sx::L(vec![Sx::s(u.as_str())])]),
+                Err(_) => Sx::L(vec![Sx::L(vec![])]),
+            }
+        } else {
+            Sx::L(vec![])
+        };
+        let pl = if ev.ty == TimelineEventType::RoomPowerLevels {
+            let p = RoomPowerLevelsEvent::new(ev);
+            let users = match p.users(&rules) {
+                Ok(u) => Sx::L(vec![Sx::L(
+                    u.map(|m| m.iter().map(|(k, v)| Sx::L(vec![Sx::s(k.as_str()), Sx::N(i64::from(*v) as i128)])).collect())
+                        .unwrap_or_default(),
+                )]),
+                Err(_) => Sx::L(vec![]),
+            };
+            let def = match p.get_as_int(RoomPowerLevelsIntField::UsersDefault, &rules) {
+                Ok(None) => Sx::L(vec![Sx::L(vec![])]),
+                Ok(Some(i)) => Sx::L(vec![Sx::L(vec![Sx::N(i64::from(i) as i128)])]),
+                Err(_) => Sx::L(vec![]),
+            };
+            Sx::L(vec![users, def])
+        } else {
+            Sx::L(vec![])
+        };
+        let (aty, ver) = if full.contains(&ev.id) && ev.skey.is_some() {
+            match auth_types_for_event(&ev.ty, &ev.sender, ev.skey.as_deref(), &ev.content, &rules) {
+                Err(_) => (Sx::L(vec![]), Sx::L(vec![])),
+                Ok(types) => {
+                    let keys: Vec<Key> = types.iter().map(|(t, k)| (t.to_string(), k.clone())).collect();
+                    // the event's own auth events, as a map (later entries win, lib.rs:461-472)
+                    let mut own: HashMap<Key, Arc<Ev>> = HashMap::new();
+                    let mut own_ok = true;
+                    for a in &ev.auth {
+                        if let Some(x) = store.get(a) {
+                            match key_of(x) {
+                                Some(k) => {
+                                    own.insert(k, x.clone());
+                                }
+                                None => own_ok = false,
+                            }
+                        }
+                    }
+                    if !own_ok {
+                        // resolve returns MissingStateKey before auth_check is reached
+                        (Sx::L(vec![Sx::L(keys.iter().map(|k| Sx::L(key_sx(k))).collect())]), Sx::L(vec![]))
+                    } else {
+                        let mut opts: Vec<Vec<Option<Id>>> = vec![];
+                        let mut rows = 1usize;
+                        for k in &keys {
+                            let mut o: BTreeSet<Option<Id>> = BTreeSet::new();
+                            o.insert(None);
+                            if let Some(x) = own.get(k) {
+                                o.insert(Some(x.id.clone()));
+                            }
+                            if let Some(cs) = cand.get(k) {
+                                for i in cs {
+                                    o.insert(Some(i.clone()));
+                                }
+                            }
+                            rows = rows.saturating_mul(o.len());
+                            opts.push(o.into_iter().collect());
+                        }
+                        if rows > MAX_ROWS_PER_EVENT {
+                            return None;
+                        }
+                        total_rows += rows;
+                        if total_rows > MAX_ROWS_PER_CASE {
+                            return None;
+                        }
+                        let mut table = vec![];
+                        let mut idx = vec![0usize; keys.len()];
+                        loop {
+                            let mut amap: HashMap<Key, Arc<Ev>> = own.clone();
+                            let mut row = vec![];
+                            for (j, k) in keys.iter().enumerate() {
+                                match &opts[j][idx[j]] {
+                                    None => {
+                                        amap.remove(k);
+                                        row.push(Sx::L(vec![]));
+                                    }
+                                    Some(i) => {
+                                        amap.insert(k.clone(), store[i].clone());
+                                        row.push(Sx::L(vec![Sx::s(i.as_str())]));
+                                    }
+                                }
+                            }
+                            let verdict = auth_check(&rules, ev, |ty, key| amap.get(&(ty.to_string(), key.to_owned())).cloned())
+                                .is_ok();
+                            table.push(Sx::L(vec![Sx::L(row), Sx::b(verdict)]));
+                            // next combination
+                            let mut j = 0;
+                            loop {
+                                if j == keys.len() {
+                                    break;
+                                }
+                                idx[j] += 1;
+                                if idx[j] < opts[j].len() {
+                                    break;
+                                }
+                                idx[j] = 0;
+                                j += 1;
+                            }
+                            if j == keys.len() {
+                                break;
+                            }
+                        }
+                        (Sx::L(vec![Sx::L(keys.iter().map(|k| Sx::L(key_sx(k))).collect())]), Sx::L(table))
+                    }
+                }
+            }
+        } else {
+            (Sx::L(vec![]), Sx::L(vec![]))
+        };
+        out.push(Sx::L(vec![mem, cre, pl, aty, ver]));
+    }
+    Some(Sx::L(out))
+}
+
+pub fn outcome_sx(r: &Result<SMap, ()>, oracle: Sx) -> Sx {
+    match r {
+        Ok(m) => Sx::L(vec![Sx::N(0), smap_sx(m), oracle]),
+        Err(()) => Sx::L(vec![Sx::N(1), Sx::N(0), oracle]),
+    }
+}
+
+/// Implementation outcome of one resolve case (None: verdict table too large, case dropped).
+pub fn run_resolve(c: &ResolveCase) -> Option<Sx> {
+    let store = c.store();
+    let c2 = c.clone();
+    let store2 = store.clone();
+    let orc = match std::panic::catch_unwind(move || oracle(&c2, &store2)) {
+        Ok(Some(o)) => o,
+        Ok(None) => return None,
+        Err(_) => return Some(Sx::panic()),
+    };
+    let c3 = c.clone();
+    Some(guarded(move || {
+        let order: Vec<usize> = (0..c3.sets.len()).collect();
+        outcome_sx(&call_resolve(&c3, &store, &order), orc)
+    }))
+}
+
+// ---------------------------------------------------------------------------------------------
+// the exposed sort
+// ---------------------------------------------------------------------------------------------
+#[derive(Clone)]
+pub struct SortCase {
+    pub graph: Vec<(String, Vec<String>)>,
+    pub keys: Vec<(String, i64, u64)>,
+}
+
+pub fn sort_case_sx(c: &SortCase) -> Sx {
+    Sx::L(vec![
+        Sx::N(1),
+        Sx::L(c.graph.iter().map(|(n, es)| Sx::L(vec![Sx::s(n), Sx::L(es.iter().map(|e| Sx::s(e)).collect())])).collect()),
+        Sx::L(c.keys.iter().map(|(n, p, t)| Sx::L(vec![Sx::s(n), Sx::N(*p as i128), Sx::N(*t as i128)])).collect()),
+    ])
+}
+
+fn decode_sort(x: &Sx) -> Option<SortCase> {
+    let l = x.as_list()?;
+    if l.len() != 3 || l[0].as_int()? != 1 {
+        return None;
+    }
+    let mut graph = vec![];
+    for g in l[1].as_list()? {
+        let g = g.as_list()?;
+        let mut es = vec![];
+        for e in g.get(1)?.as_list()? {
+            es.push(e.as_string()?);
+        }
+        graph.push((g.first()?.as_string()?, es));
+    }
+    let mut keys = vec![];
+    for k in l[2].as_list()? {
+        let k = k.as_list()?;
+        keys.push((k.first()?.as_string()?, i64::try_from(k.get(1)?.as_int()?).ok()?, u64::try_from(k.get(2)?.as_int()?).ok()?));
+    }
+    Some(SortCase { graph, keys })
+}
+
+pub fn run_sort(c: &SortCase) -> Sx {
+    let c = c.clone();
+    guarded(move || {
+        let graph: HashMap<Id, HashSet<Id>> =
+            c.graph.iter().map(|(n, es)| (eid(n), es.iter().map(|e| eid(e)).collect())).collect();
+        let keys: HashMap<Id, (Int, MilliSecondsSinceUnixEpoch)> = c
+            .keys
+            .iter()
+            .map(|(n, p, t)| (eid(n), (Int::new(*p).unwrap(), MilliSecondsSinceUnixEpoch(UInt::new(*t).unwrap()))))
+            .collect();
+        let r = ruma_state_res::lexicographical_topological_sort(&graph, |id| {
+            keys.get(id).copied().ok_or_else(|| ruma_state_res::Error::NotFound(id.to_owned()))
+        });
+        match r {
+            Ok(l) => Sx::ok(Sx::L(l.iter().map(|i| Sx::s(i.as_str())).collect())),
+            Err(_) => Sx::err(0),
+        }
+    })
+}
+
+// ---------------------------------------------------------------------------------------------
+// room simulator
+// ---------------------------------------------------------------------------------------------
+pub const USERS: &[&str] = &["@alice:a", "@bob:b", "@carol:c", "@dave:a"];
+
+pub struct Sim {
+    pub version: u8,
+    pub rules: AuthorizationRules,
+    pub store: Store,
+    pub order: Vec<Id>,
+    pub state_after: HashMap<Id, SMap>,
+    pub heads: Vec<Id>,
+    pub rng: Rng,
+    ts_mode: usize,
+    clock: u64,
+    used: HashSet<String>,
+}
+
+pub fn auth_chain_of(store: &Store, ids: impl Iterator<Item = Id>) -> BTreeSet<Id> {
+    let mut out = BTreeSet::new();
+    let mut stack: Vec<Id> = ids.collect();
+    let mut seen: HashSet<Id> = HashSet::new();
+    while let Some(i) = stack.pop() {
+        if !seen.insert(i.clone()) {
+            continue;
+        }
+        if let Some(e) = store.get(&i) {
+            for a in &e.auth {
+                out.insert(a.clone());
+                stack.push(a.clone());
+            }
+        }
+    }
+    out
+}
+
+impl Sim {
+    pub fn new(seed: u64) -> Sim {
+        let mut rng = Rng::new(seed);
+        let version = *rng.pick(VERSIONS);
+        let ts_mode = rng.below(5);
+        Sim {
+            version,
+            rules: rules_of(version),
+            store: HashMap::new(),
+            order: vec![],
+            state_after: HashMap::new(),
+            heads: vec![],
+            rng,
+            ts_mode,
+            clock: 10,
+            used: HashSet::new(),
+        }
+    }
+
+    fn fresh_id(&mut self) -> Id {
+        // ids uncorrelated with creation order; small alphabet so that ties in (power, ts) are
+        // broken by ids in every direction
+        const A: &[u8] = b"abcxyzABC019";
+        loop {
+            let n = 1 + self.rng.below(2);
+            let mut s = String::from("$");
+            for _ in 0..n {
+                s.push(A[self.rng.below(A.len())] as char);
+            }
+            if self.used.insert(s.clone()) {
+                return eid(&s);
+            }
+        }
+    }
+
+    fn next_ts(&mut self) -> u64 {
+        match self.ts_mode {
+            0 => {
+                self.clock += 1 + self.rng.below(3) as u64;
+                self.clock
+            }
+            1 => 7,                             // all equal
+            2 => self.rng.below(4) as u64,      // heavy ties
+            3 => {
+                self.clock = self.clock.saturating_sub(1); // decreasing: later events claim to be older
+                1000 + self.clock
+            }
+            _ => self.rng.below(40) as u64,
+        }
+    }
+
+    pub fn state_before(&self, prevs: &[Id]) -> SMap {
+        let sets: Vec<&SMap> = prevs.iter().filter_map(|p| self.state_after.get(p)).collect();
+        match sets.len() {
+            0 => SMap::new(),
+            1 => sets[0].clone(),
+            _ => {
+                let c = ResolveCase {
+                    version: self.version,
+                    events: vec![],
+                    sets: sets.iter().map(|s| (*s).clone()).collect(),
+                    chains: sets.iter().map(|s| auth_chain_of(&self.store, s.values().cloned())).collect(),
+                };
+                let order: Vec<usize> = (0..c.sets.len()).collect();
+                call_resolve(&c, &self.store, &order).unwrap_or_else(|_| sets[0].clone())
+            }
+        }
+    }
+
+    /// Build an event on top of `prevs`; auth events selected from the state before it.
+    /// Returns (event, allowed by auth_check against that state).
+    pub fn build(&mut self, sender: &str, ty: &str, skey: &str, content: String, prevs: Vec<Id>) -> (Ev, SMap, bool) {
+        let before = self.state_before(&prevs);
+        let tyt = TimelineEventType::from(ty);
+        let content = raw(&content);
+        let sender_id = uid(sender);
+        let mut auth = vec![];
+        if let Ok(types) = auth_types_for_event(&tyt, &sender_id, Some(skey), &content, &self.rules) {
+            for (t, k) in types {
+                if let Some(i) = before.get(&(t.to_string(), k)) {
+                    if !auth.contains(i) {
+                        auth.push(i.clone());
+                    }
+                }
+            }
+        }
+        // order of auth_events is not fixed by anything: shuffle
+        for i in (1..auth.len()).rev() {
+            let j = self.rng.below(i + 1);
+            auth.swap(i, j);
+        }
+        let ev = Ev {
+            id: self.fresh_id(),
+            room: room(),
+            sender: sender_id,
+            ts: self.next_ts(),
+            ty: tyt,
+            skey: Some(skey.to_owned()),
+            content,
+            prev: prevs,
+            auth,
+        };
+        let store = &self.store;
+        let ok = auth_check(&self.rules, &ev, |t, k| before.get(&(t.to_string(), k.to_owned())).and_then(|i| store.get(i)).cloned())
+            .is_ok();
+        (ev, before, ok)
+    }
+
+    pub fn commit(&mut self, ev: Ev, before: SMap, apply: bool) -> Id {
+        let id = ev.id.clone();
+        let mut after = before;
+        if apply {
+            after.insert((ev.ty.to_string(), ev.skey.clone().unwrap_or_default()), id.clone());
+        }
+        self.store.insert(id.clone(), Arc::new(ev));
+        self.state_after.insert(id.clone(), after);
+        self.order.push(id.clone());
+        id
+    }
+
+    fn pl_content(&mut self, before: &SMap) -> String {
+        // start from the current power levels (as JSON) and edit one or two fields
+        let mut v: serde_json::Value = before
+            .get(&("m.room.power_levels".to_owned(), String::new()))
+            .and_then(|i| self.store.get(i))
+            .and_then(|e| serde_json::from_str(e.content.get()).ok())
+            .unwrap_or_else(|| serde_json::json!({"users": {"@alice:a": 100}}));
+        let o = v.as_object_mut().unwrap();
+        let levels = [0, 50, 100];
+        for _ in 0..1 + self.rng.below(2) {
+            match self.rng.below(7) {
+                0 | 1 | 2 => {
+                    let u = *self.rng.pick(USERS);
+                    let l = *self.rng.pick(&levels);
+                    let users = o.entry("users").or_insert_with(|| serde_json::json!({}));
+                    if let Some(m) = users.as_object_mut() {
+                        if self.rng.chance(1, 6) {
+                            m.remove(u);
+                        } else {
+                            m.insert(u.to_owned(), l.into());
+                        }
+                    }
+                }
+                3 => {
+                    o.insert("users_default".into(), (*self.rng.pick(&[0, 0, 50])).into());
+                }
+                4 => {
+                    o.insert("state_default".into(), (*self.rng.pick(&[0, 50, 50])).into());
+                }
+                5 => {
+                    let f = *self.rng.pick(&["ban", "kick", "invite"]);
+                    o.insert(f.into(), (*self.rng.pick(&levels)).into());
+                }
+                _ => {
+                    let t = *self.rng.pick(&["m.room.topic", "m.room.name", "m.room.power_levels", "m.room.join_rules"]);
+                    let l = *self.rng.pick(&levels);
+                    let evs = o.entry("events").or_insert_with(|| serde_json::json!({}));
+                    if let Some(m) = evs.as_object_mut() {
+                        m.insert(t.to_owned(), l.into());
+                    }
+                }
+            }
+        }
+        v.to_string()
+    }
+
+    /// One simulated history: create + creator join, then `steps` actions by random users on
+    /// random server heads, with forks, merges and syncs.
+    pub fn history(seed: u64, steps: usize) -> Sim {
+        let mut s = Sim::new(seed);
+        let create_content = if s.version >= 11 {
+            format!(r#"{{"room_version":"{}"}}"#, s.version)
+        } else {
+            format!(r#"{{"creator":"@alice:a","room_version":"{}"}}"#, s.version)
+        };
+        let (c, b, _) = s.build("@alice:a", "m.room.create", "", create_content, vec![]);
+        let c = s.commit(c, b, true);
+        let (j, b, _) = s.build("@alice:a", "m.room.member", "@alice:a", r#"{"membership":"join"}"#.into(), vec![c]);
+        let j = s.commit(j, b, true);
+        s.heads = vec![j.clone(), j.clone(), j];
+        // a public room early on makes most histories lively
+        let early_public = s.rng.chance(3, 4);
+        let mut step = 0;
+        let mut tries = 0;
+        while step < steps && tries < steps * 6 {
+            tries += 1;
+            let h = s.rng.below(s.heads.len());
+            let mut prevs = vec![s.heads[h].clone()];
+            if s.rng.chance(1, 6) {
+                let o = s.heads[s.rng.below(s.heads.len())].clone();
+                if !prevs.contains(&o) {
+                    prevs.push(o);
+                }
+            }
+            if s.rng.chance(1, 12) {
+                // fork from the past
+                let o = s.order[s.rng.below(s.order.len())].clone();
+                prevs = vec![o];
+            }
+            let before = s.state_before(&prevs);
+            let u = *s.rng.pick(USERS);
+            let v = *s.rng.pick(USERS);
+            let (ty, sk, content): (&str, String, String) = if early_public && step == 0 {
+                ("m.room.join_rules", String::new(), r#"{"join_rule":"public"}"#.into())
+            } else {
+                match s.rng.below(16) {
+                    0 | 1 => ("m.room.topic", String::new(), format!(r#"{{"topic":"t{}"}}"#, s.rng.below(9))),
+                    2 => ("m.room.name", String::new(), format!(r#"{{"name":"n{}"}}"#, s.rng.below(9))),
+                    3 | 4 | 5 => ("m.room.power_levels", String::new(), s.pl_content(&before)),
+                    6 => {
+                        let jr = if s.rules.knocking { *s.rng.pick(&["public", "invite", "knock", "public"]) } else { *s.rng.pick(&["public", "invite"]) };
+                        ("m.room.join_rules", String::new(), format!(r#"{{"join_rule":"{jr}"}}"#))
+                    }
+                    7 | 8 | 9 => ("m.room.member", u.to_owned(), r#"{"membership":"join"}"#.into()),
+                    10 => ("m.room.member", u.to_owned(), r#"{"membership":"leave"}"#.into()),
+                    11 => ("m.room.member", v.to_owned(), r#"{"membership":"invite"}"#.into()),
+                    12 => ("m.room.member", v.to_owned(), r#"{"membership":"leave"}"#.into()),
+                    13 | 14 => ("m.room.member", v.to_owned(), r#"{"membership":"ban"}"#.into()),
+                    _ => {
+                        if s.rules.knocking {
+                            ("m.room.member", u.to_owned(), r#"{"membership":"knock"}"#.into())
+                        } else {
+                            ("m.room.member", u.to_owned(), r#"{"membership":"join"}"#.into())
+                        }
+                    }
+                }
+            };
+            let (ev, before, ok) = s.build(u, ty, &sk, content, prevs);
+            // mostly keep authorised events; sometimes keep an unauthorised one as part of a
+            // (byzantine) server's state, so that merges see events that must be rejected
+            let keep = ok || s.rng.chance(1, 10);
+            if !keep {
+                s.used.remove(ev.id.as_str());
+                continue;
+            }
+            let id = s.commit(ev, before, true);
+            s.heads[h] = id.clone();
+            if s.rng.chance(1, 8) {
+                let t = s.rng.below(s.heads.len());
+                s.heads[t] = id;
+            }
+            step += 1;
+        }
+        s
+    }
+
+    /// A resolve call merging the states after the given DAG nodes.
+    pub fn case_for(&self, nodes: &[Id]) -> ResolveCase {
+        let sets: Vec<SMap> = nodes.iter().map(|n| self.state_after[n].clone()).collect();
+        let chains: Vec<BTreeSet<Id>> = sets.iter().map(|s| auth_chain_of(&self.store, s.values().cloned())).collect();
+        // the store shipped with the case: every event reachable from the sets
+        let mut need: BTreeSet<Id> = BTreeSet::new();
+        for (s, c) in sets.iter().zip(&chains) {
+            need.extend(s.values().cloned());
+            need.extend(c.iter().cloned());
+        }
+        // in creation order, which is a topological order of the auth graph
+        let events = self.order.iter().filter(|i| need.contains(*i)).filter_map(|i| self.store.get(i).cloned()).collect();
+        ResolveCase { version: self.version, events, sets, chains }
+    }
+}
+
+// ---------------------------------------------------------------------------------------------
+// hand-built scenarios (systematic stream)
+// ---------------------------------------------------------------------------------------------
+pub fn mk(id: &str, sender: &str, ty: &str, skey: &str, content: &str, ts: u64, auth: &[&str]) -> Arc<Ev> {
+    Arc::new(Ev {
+        id: eid(id),
+        room: room(),
+        sender: uid(sender),
+        ts,
+        ty: TimelineEventType::from(ty),
+        skey: Some(skey.to_owned()),
+        content: raw(content),
+        prev: vec![],
+        auth: auth.iter().map(|a| eid(a)).collect(),
+    })
+}
+
+fn case_from(version: u8, evs: Vec<Arc<Ev>>, sets: &[&[&str]]) -> ResolveCase {
+    let store: Store = evs.iter().map(|e| (e.id.clone(), e.clone())).collect();
+    let sets: Vec<SMap> = sets
+        .iter()
+        .map(|ids| {
+            ids.iter()
+                .map(|i| {
+                    let e = &store[&eid(i)];
+                    ((e.ty.to_string(), e.skey.clone().unwrap()), e.id.clone())
+                })
+                .collect()
+        })
+        .collect();
+    let chains = sets.iter().map(|s| auth_chain_of(&store, s.values().cloned())).collect();
+    // events stay in the given (topological) order
+    ResolveCase { version, events: evs, sets, chains }
+}
+
+const JOIN: &str = r#"{"membership":"join"}"#;
+const LEAVE: &str = r#"{"membership":"leave"}"#;
+
+/// DESIGN section 11: an event with no power-levels ancestor against an event on the oldest
+/// mainline position.
+pub fn scenario_mainline(ts_x: u64, ts_y: u64) -> ResolveCase {
+    let evs = vec![
+        mk("$c", "@alice:a", "m.room.create", "", r#"{"creator":"@alice:a","room_version":"6"}"#, 1, &[]),
+        mk("$ja", "@alice:a", "m.room.member", "@alice:a", JOIN, 2, &["$c"]),
+        mk("$jr", "@alice:a", "m.room.join_rules", "", r#"{"join_rule":"public"}"#, 3, &["$c", "$ja"]),
+        mk("$jb", "@bob:b", "m.room.member", "@bob:b", JOIN, 4, &["$c", "$jr"]),
+        mk("$p1", "@alice:a", "m.room.power_levels", "", r#"{"users":{"@alice:a":100,"@bob:b":50}}"#, 5, &["$c", "$ja"]),
+        mk("$x", "@alice:a", "m.room.topic", "", r#"{"topic":"x"}"#, ts_x, &["$c", "$ja"]),
+        mk("$y", "@bob:b", "m.room.topic", "", r#"{"topic":"y"}"#, ts_y, &["$c", "$jb", "$p1"]),
+    ];
+    case_from(6, evs, &[&["$c", "$ja", "$jr", "$jb", "$x"], &["$c", "$ja", "$jr", "$jb", "$p1", "$y"]])
+}
+
+/// A conflicted non-power event lying in the auth chain of a power event only through events
+/// outside the full conflicted set (see coq/C07/Spec.v, `power_closure`).
+pub fn scenario_chain_through_unconflicted(ts_join: u64, ts_leave: u64) -> ResolveCase {
+    let evs = vec![
+        mk("$c", "@alice:a", "m.room.create", "", r#"{"creator":"@alice:a","room_version":"6"}"#, 1, &[]),
+        mk("$ja", "@alice:a", "m.room.member", "@alice:a", JOIN, 2, &["$c"]),
+        mk("$j0", "@alice:a", "m.room.join_rules", "", r#"{"join_rule":"public"}"#, 3, &["$c", "$ja"]),
+        mk(
+            "$p1",
+            "@alice:a",
+            "m.room.power_levels",
+            "",
+            r#"{"users":{"@alice:a":100,"@bob:b":50,"@carol:c":100}}"#,
+            4,
+            &["$c", "$ja"],
+        ),
+        mk("$jb", "@bob:b", "m.room.member", "@bob:b", JOIN, ts_join, &["$c", "$p1", "$j0"]),
+        mk("$j1", "@bob:b", "m.room.join_rules", "", r#"{"join_rule":"public"}"#, 6, &["$c", "$p1", "$jb"]),
+        mk("$jc", "@carol:c", "m.room.member", "@carol:c", JOIN, 7, &["$c", "$p1", "$j1"]),
+        mk(
+            "$p2",
+            "@carol:c",
+            "m.room.power_levels",
+            "",
+            r#"{"users":{"@alice:a":100,"@bob:b":50,"@carol:c":100},"invite":50}"#,
+            8,
+            &["$c", "$p1", "$jc"],
+        ),
+        mk("$lb", "@bob:b", "m.room.member", "@bob:b", LEAVE, ts_leave, &["$c", "$p1", "$jb"]),
+    ];
+    case_from(6, evs, &[&["$c", "$ja", "$p2", "$jb", "$j1", "$jc"], &["$c", "$ja", "$p1", "$lb", "$j1", "$jc"]])
+}
+
+// ---------------------------------------------------------------------------------------------
+// streams
+// ---------------------------------------------------------------------------------------------
+fn emit_resolve(em: &mut Emitter, tag: &str, c: &ResolveCase) -> bool {
+    match run_resolve(c) {
+        Some(out) => {
+            em.emit(tag, case_sx(c), out);
+            true
+        }
+        None => false,
+    }
+}
+
+/// Node subsets (<= 4) whose states are merged.
+pub fn pick_subsets(s: &mut Sim, how_many: usize) -> Vec<Vec<Id>> {
+    let mut out: Vec<Vec<Id>> = vec![];
+    let mut heads: Vec<Id> = s.heads.clone();
+    heads.sort();
+    heads.dedup();
+    if heads.len() >= 2 {
+        out.push(heads.clone());
+    }
+    for _ in 0..how_many {
+        let n = 2 + s.rng.below(3);
+        let mut v: Vec<Id> = vec![];
+        for _ in 0..n {
+            let i = if s.rng.chance(1, 2) { s.order.len() - 1 - s.rng.below(s.order.len().min(6)) } else { s.rng.below(s.order.len()) };
+            let id = s.order[i].clone();
+            if !v.contains(&id) {
+                v.push(id);
+            }
+        }
+        if s.rng.chance(1, 10) && !v.is_empty() {
+            // identical sets / single set
+            let x = v[0].clone();
+            v = if s.rng.chance(1, 2) { vec![x] } else { vec![x.clone(), x.clone(), x] };
+        }
+        out.push(v);
+    }
+    out
+}
+
+fn gen_sort_cases(tier: &str, r: &mut Rng, em: &mut Emitter) {
+    // node names: order of ids deliberately unrelated to the topological numbering
+    let names = ["$m", "$b", "$z", "$a", "$q", "$c"];
+    let maxn = if tier == "thorough" { 5 } else { 4 };
+    for n in 0..=maxn {
+        let pairs: Vec<(usize, usize)> = (0..n).flat_map(|i| (0..i).map(move |j| (i, j))).collect();
+        for mask in 0u32..(1u32 << pairs.len()) {
+            let graph: Vec<(String, Vec<String>)> = (0..n)
+                .map(|i| {
+                    (
+                        names[i].to_owned(),
+                        pairs.iter().enumerate().filter(|(b, (x, _))| *x == i && mask >> b & 1 == 1).map(|(_, (_, y))| names[*y].to_owned()).collect(),
+                    )
+                })
+                .collect();
+            // exhaustive key grid up to 3 nodes (quick) / 4 nodes (thorough), sampled above
+            let reps: usize = if tier == "thorough" {
+                if n <= 4 { 0 } else { 60 }
+            } else if n <= 3 {
+                0
+            } else {
+                8
+            };
+            if reps == 0 {
+                // exhaustive 3x3 key grid per node
+                let total = 9usize.pow(n as u32);
+                for code in 0..total {
+                    let mut c = code;
+                    let keys = (0..n)
+                        .map(|i| {
+                            let d = c % 9;
+                            c /= 9;
+                            (names[i].to_owned(), (d / 3) as i64 * 50, (d % 3) as u64)
+                        })
+                        .collect();
+                    let sc = SortCase { graph: graph.clone(), keys };
+                    em.emit("sort-exhaustive", sort_case_sx(&sc), run_sort(&sc));
+                }
+            } else {
+                for _ in 0..reps {
+                    let keys = (0..n).map(|i| (names[i].to_owned(), r.below(3) as i64 * 50 - 50, r.below(3) as u64)).collect();
+                    let sc = SortCase { graph: graph.clone(), keys };
+                    em.emit("sort-dags", sort_case_sx(&sc), run_sort(&sc));
+                }
+            }
+        }
+    }
+    // malformed: edges to non-nodes, cycles, missing keys
+    let m = if tier == "thorough" { 20000 } else { 1500 };
+    for _ in 0..m {
+        let n = 1 + r.below(5);
+        let mut graph: Vec<(String, Vec<String>)> = vec![];
+        for i in 0..n {
+            let mut es: Vec<String> = vec![];
+            for j in 0..6 {
+                if j != i && r.chance(1, 4) {
+                    es.push(names[j].to_owned());
+                }
+            }
+            graph.push((names[i].to_owned(), es));
+        }
+        let mut keys = vec![];
+        for name in names.iter() {
+            if !r.chance(1, 12) {
+                keys.push(((*name).to_owned(), r.below(3) as i64, r.below(2) as u64));
+            }
+        }
+        let sc = SortCase { graph, keys };
+        em.emit("sort-malformed", sort_case_sx(&sc), run_sort(&sc));
+    }
+}
+
+pub fn malformed_variant(c: &ResolveCase, r: &mut Rng) -> ResolveCase {
+    let mut c = c.clone();
+    match r.below(3) {
+        0 => {
+            // an event unknown to the store
+            if !c.events.is_empty() {
+                let i = r.below(c.events.len());
+                if c.events[i].ty != TimelineEventType::RoomCreate {
+                    c.events.remove(i);
+                }
+            }
+        }
+        1 => {
+            // an event without state key
+            if !c.events.is_empty() {
+                let i = r.below(c.events.len());
+                if c.events[i].ty != TimelineEventType::RoomCreate {
+                    let mut e = (*c.events[i]).clone();
+                    e.skey = None;
+                    c.events[i] = Arc::new(e);
+                }
+            }
+        }
+        _ => {
+            // malformed power levels content
+            for i in 0..c.events.len() {
+                if c.events[i].ty == TimelineEventType::RoomPowerLevels && r.chance(1, 2) {
+                    let mut e = (*c.events[i]).clone();
+                    e.content = raw(*r.pick(&[r#"{"users":"x"}"#, r#"{"users_default":[]}"#, r#"[]"#]));
+                    c.events[i] = Arc::new(e);
+                }
+            }
+        }
+    }
+    c
+}
+
+pub fn histories(tier: &str) -> usize {
+    if tier == "thorough" {
+        4000
+    } else {
+        300
+    }
+}
+
+pub fn run(tier: &str, seed: u64, em: &mut Emitter) {
+    let mut r = Rng::new(seed ^ 0xC07);
+    // systematic: the hand-built scenarios over a timestamp grid, then the exposed sort
+    for tx in [5u64, 10, 20] {
+        for ty in [5u64, 10, 20] {
+            emit_resolve(em, "systematic", &scenario_mainline(tx, ty));
+            emit_resolve(em, "systematic", &scenario_chain_through_unconflicted(tx, ty));
+        }
+    }
+    gen_sort_cases(tier, &mut r, em);
+    // random structured: simulated histories
+    let mut dropped = 0usize;
+    for h in 0..histories(tier) {
+        let steps = 6 + r.below(22);
+        let mut s = Sim::history(seed.wrapping_mul(1_000_003).wrapping_add(h as u64) ^ 0xC07, steps);
+        let subsets = pick_subsets(&mut s, 5);
+        for nodes in subsets {
+            let c = s.case_for(&nodes);
+            if !emit_resolve(em, "history", &c) {
+                dropped += 1;
+            }
+            if r.chance(1, 8) {
+                let m = malformed_variant(&c, &mut r);
+                emit_resolve(em, "malformed", &m);
+            }
+        }
+    }
+    if dropped > 0 {
+        eprintln!("c07: {dropped} cases dropped (verdict table too large)");
+    }
+}
+
+pub fn replay(case: &Sx) -> Option<Sx> {
+    match case.as_list()?.first()?.as_int()? {
+        0 => {
+            let c = decode_case(case)?;
+            run_resolve(&c)
+        }
+        1 => Some(run_sort(&decode_sort(case)?)),
+        _ => None,
+    }
 }
 
 pub fn dump(_dir: &str) {}
